@@ -3478,7 +3478,6 @@ const XPathProcessorImpl::size_type     XPathProcessorImpl::s_functionTableSize 
 
 const XPathProcessorImpl::TableEntry    XPathProcessorImpl::s_nodeTypeTable[] =
 {
-    { XPathProcessorImpl::s_asteriskString, XPathExpression::eNODETYPE_ANYELEMENT },
     { XPathProcessorImpl::s_nodeString, XPathExpression::eNODETYPE_NODE },
     { XPathProcessorImpl::s_textString, XPathExpression::eNODETYPE_TEXT },
     { XPathProcessorImpl::s_commentString, XPathExpression::eNODETYPE_COMMENT },
